@@ -111,6 +111,12 @@ def rule_int_tables(ctx, rep):
             got = _call(ctx, me, "_get_asserted_single", key, v)
             rep.check(got == (U, U), rule, f"{key} {opsym} vs {kind} ({pos})", where, got, (sorted(U), sorted(U)),
                       why="a comparison the tool cannot evaluate must not constrain the field")
+        # the same field of an *inner* transaction (itxn / gitxn read what the application itself submitted) says nothing about the group
+        if key == "GroupIndex":
+            for iline, opsym, pos in itertools.product(("itxn GroupIndex", "gitxn 0 GroupIndex"), ("==", "<"), "LR"):
+                got = _call(ctx, me, "_get_asserted_single", key, cond(ctx, iline, opsym, pos, "int 3"))
+                rep.check(got == (U, U), rule, f"{key} unaffected by `{iline} {opsym} 3` ({pos})", where, got, (sorted(U), sorted(U)),
+                          why="a field of an inner transaction is not the field of the transaction under analysis")
         # a comparison of the *other* field does not constrain this key
         other_line = doms["GroupIndex" if key == "GroupSize" else "GroupSize"][0]
         got = _call(ctx, me, "_get_asserted_single", key, cond(ctx, other_line, "==", "L", "int 3"))
@@ -275,7 +281,9 @@ def rule_fee_tables(ctx, rep):
     # comparisons that do not involve the fee
     for seq in (["txn Amount", "int 5", "<"], ["int 1", "int 2", "=="], ["txn Fee", "int 5", "+"], ["txn Fee", "!"], ["gtxn 1 Fee", "int 5", "<"],
                 # operands (partly) from before the block, none of them the fee
-                ["<"], ["=="], ["int 5", "<="], ["txn Amount", ">"], ["int 1000", "=="]):
+                ["<"], ["=="], ["int 5", "<="], ["txn Amount", ">"], ["int 1000", "=="],
+                # the fee of an inner transaction is not the fee of the transaction under analysis
+                ["itxn Fee", "int 5", "<"], ["int 1000", "itxn Fee", ">="], ["itxn Fee", "int 0", "=="], ["gitxn 0 Fee", "int 5", "<="]):
         v, _, _ = b.operand(seq)
         got = _call(ctx, me, "_get_asserted_single", "Fee", v)
         gt, gf = _fee_view(ctx, got[0]), _fee_view(ctx, got[1])
@@ -546,7 +554,10 @@ def rule_addr_tables(ctx, rep):
             rep.check(ok, rule, f"{key} unaffected by {seq[0].split()[0]} {seq[0].split()[-1] if seq[0].split()[-1] != key else 'same-field-other-txn'}",
                       where, got, "(ANY, ANY)", why="a comparison of another field / another transaction must not constrain this key")
         # comparisons whose operands come (partly) from before the block and do not involve this key: no information
-        for seq in (["=="], ["!="], ["int 3", "=="], ["txn Amount", "=="], [f"txn {'Sender' if key != 'Sender' else 'RekeyTo'}", "!="], ["global ZeroAddress", "=="]):
+        for seq in (["=="], ["!="], ["int 3", "=="], ["txn Amount", "=="], [f"txn {'Sender' if key != 'Sender' else 'RekeyTo'}", "!="], ["global ZeroAddress", "=="],
+                    # the field of an inner transaction is not the field of the transaction under analysis
+                    [f"itxn {key}", "global ZeroAddress", "=="], ["global ZeroAddress", f"itxn {key}", "=="], [f"itxn {key}", "global ZeroAddress", "!="],
+                    [f"gitxn 0 {key}", "global ZeroAddress", "=="]):
             v, _, _ = _builder(ctx).operand(seq)
             got = _call(ctx, me, "_get_asserted_single", key, v)
             ok = isinstance(got, tuple) and _den(got[0], ANY, NO) == "TOP" and _den(got[1], ANY, NO) == "TOP"
@@ -674,7 +685,9 @@ def rule_kind_tables(ctx, rep):
         judge("ApplicationID", opsym, cname, cval, got, f"{line} {opsym} int {cval}")
     # unrelated comparisons / unknown operands keep everything
     for seq in (["txn Amount", "int 1", "=="], ["txn TypeEnum", "load 0", "=="], ["txn TypeEnum", "=="], ["txn TypeEnum", "int pay", "<"],
-                ["gtxn 1 TypeEnum", "int pay", "=="], ["int 1", "int pay", "=="], ["txn Fee", "!"], ["!"], ["=="], ["int pay", "=="], ["int NoOp", "!="]):
+                ["gtxn 1 TypeEnum", "int pay", "=="], ["int 1", "int pay", "=="], ["txn Fee", "!"], ["!"], ["=="], ["int pay", "=="], ["int NoOp", "!="],
+                ["itxn TypeEnum", "int pay", "=="], ["int appl", "itxn TypeEnum", "=="], ["itxn OnCompletion", "int NoOp", "=="], ["itxn OnCompletion", "int DeleteApplication", "!="],
+                ["gitxn 0 TypeEnum", "int axfer", "=="], ["itxn ApplicationID", "int 0", "=="], ["itxn ApplicationID", "!"]):
         v, _, _ = b.operand(seq)
         got = _call(ctx, me, "_get_asserted_single", key, v)
         ok = isinstance(got, tuple) and isinstance(got[0], set) and set(KINDS) <= _labels(got[0]) and set(KINDS) <= _labels(got[1])
